@@ -42,7 +42,7 @@ def render_fun(fn):
         lines.append("@dds.data_function(%r)" % fn["store_path"])
     ps = ", ".join(n if d is None else "%s=%s" % (n, lit(d)) for (n, d) in fn["params"])
     lines.append("def %s(%s):" % (fn["name"], ps))
-    lines.append("    log(%r)" % fn["name"])
+    lines.append("    log(%r)" % fn["name"] + (("  # " + fn["comment"]) if fn.get("comment") else ""))
     item_lines = []
     for i, it in enumerate(fn["items"]):
         k = it["k"]
@@ -77,6 +77,10 @@ def render_fun(fn):
     if fn.get("uses_ext"):
         parts.append("extmod.extf()")
     parts += ["r%d" % i for i in range(len(fn["items"]))]
+    if fn.get("ws") is not None:
+        # a statement whose meaning depends on its indentation only (an edit of leading whitespace changes the value)
+        lines += ["    w = 'a'", "    if False:", "        pass", ("        w = 'b'" if fn["ws"] else "    w = 'b'")]
+        parts.append("w")
     lines.append("    return term(%s)" % ", ".join(parts))
     return "\n".join(lines) + "\n", item_lines
 
@@ -150,7 +154,7 @@ def model_world(world, extmod=None):
             "store_path": fn.get("store_path"),
             "vars": [[n, var_map[n]] for n in fn.get("reads", [])],
             "exts": sorted(exts),
-            "items": items, "fails": fn.get("fails"), "uses_ext": bool(fn.get("uses_ext")),
+            "items": items, "fails": fn.get("fails"), "uses_ext": bool(fn.get("uses_ext")), "ws": fn.get("ws"),
         })
     return {"funs": funs, "ext_version": world.get("ext_version", 0)}
 
@@ -255,7 +259,8 @@ def _gen_world(rng, nfun, allow):
                 items.append({"k": "keep", "path": newpath(), "f": "f%d" % j, "args": args, "kwargs": kwargs})
         reads = [v for (v, _) in vars_ if rng.random() < 0.5]
         funs.append({"name": "f%d" % i, "params": params, "store_path": ("/df%d" % i) if datafn[i] else None,
-                     "tag": "f%d#0" % i, "reads": reads, "items": items, "fails": None, "uses_ext": rng.random() < 0.2})
+                     "tag": "f%d#0" % i, "reads": reads, "items": items, "fails": None, "uses_ext": rng.random() < 0.2,
+                     "ws": rng.choice([None, None, True, False])})
     w = {"vars": vars_, "funs": funs, "ext_version": 0, "extra": []}
     return prune(w)
 
@@ -408,7 +413,7 @@ def same_hash_class(a, b):
     return c05.canon(a, rules) == c05.canon(b, rules)
 
 
-EDIT_KINDS = ["body", "var", "const_arg", "unrelated_fun", "unrelated_var", "reorder", "ext", "revert", "delete_call"]
+EDIT_KINDS = ["body", "var", "const_arg", "unrelated_fun", "unrelated_var", "reorder", "ext", "revert", "delete_call", "whitespace"]
 
 
 def bump_tag(tag):
@@ -455,6 +460,10 @@ def apply_edit(rng, world, kind):
     if kind == "ext":
         w["ext_version"] = w.get("ext_version", 0) + 1
         return w, {"kind": kind}
+    if kind == "whitespace":
+        f = rng.choice(w["funs"])
+        f["ws"] = (not f["ws"]) if f.get("ws") is not None else True
+        return w, {"kind": "body", "fun": f["name"], "whitespace_only": True}
     if kind == "delete_call":
         sites = [(f, i) for f in w["funs"] for i, it in enumerate(f["items"]) if it["k"] in ("call", "ref")]
         if not sites:
